@@ -19,6 +19,13 @@ func main() {
 	for i, in := range g.Parser.Inputs {
 		fmt.Printf("input %d: %s noeoi=%v synthetic=%v\n", i, g.Parser.Nonterms[in.Nonterm].Name, in.NoEoi, in.Synthetic)
 	}
+	for _, st := range g.Sets {
+		var names []string
+		for _, t := range st.Terminals {
+			names = append(names, g.Syms[t].Name)
+		}
+		fmt.Printf("set %s = %v (%s)\n", st.Name, names, st.Expr)
+	}
 	for i, r := range g.Parser.Rules {
 		fmt.Printf("rule %d: %s\n", i, g.RuleString(*r))
 	}
